@@ -98,10 +98,17 @@ Definition case_model_old (c : case_t) : list oobs :=
 (* every state the model goes through satisfies the invariant and the index coverage under
    which the theorems of Properties/C04.v are proved (DeleteCheck.db_okb, ReadDB.db_covb, both
    sound by proof) *)
+(* (up to the first failed write: a failed multi-channel write may commit on some of its
+   channels only, which leaves the invariant — see [failed_write] below) *)
 Fixpoint model_states (fx : bool) (g : gcfg) (d : db) (ops : list op) : list db :=
   match ops with
   | [] => []
-  | o :: r => let d' := fst (step fx g d o) in d' :: model_states fx g d' r
+  | o :: r =>
+      let '(d', e) := step fx g d o in
+      match o, e with
+      | OWrite _ _, Some _ => []
+      | _, _ => d' :: model_states fx g d' r
+      end
   end.
 Definition inv_holds (c : case_t) : bool :=
   let '(cap, thr, chs, ranges, steps) := c in
